@@ -65,6 +65,8 @@ def main():
         if os.path.exists(demo_dst):
             os.remove(demo_dst)
         sh("git -C /repo checkout -- . && git -C /repo clean -fdq -- . ':!quadtree/verif_hooks.go'")
+        # evidence files now describe a run against the CHANGED tree: put the committed ones back
+        sh("git checkout -- evidence/", cwd=ROOT)
     shutil.copy(demo, demo_dst)
     rc, out = sh(f"go test {race}-vet=off -count=1 ./{pkgdir}/ 2>&1 | tail -5", cwd="/repo")
     os.remove(demo_dst)
